@@ -310,32 +310,54 @@ func (c *Ctx) anchoredResolver(R *ssa.Function) (string, string) {
 		return "the result is joined onto something other than a configured base directory or the home directory: " + an.Term(base)
 	}
 	p := ssa.Value(R.Params[len(R.Params)-1])
-	for _, ret := range an.Returns(R) {
-		if len(ret.Results) == 0 {
-			continue
+	isAbsEdge := func(b *ssa.BasicBlock, i int, a *an.Atom) bool {
+		if a == nil || a.Op != "true" {
+			return false
 		}
-		v := an.StripConv(an.Result(ret, 0))
+		call, ok := isCallToName(a.LV, "path/filepath.IsAbs")
+		return ok && call.Call.Args[0] == p
+	}
+	// judge one result value; for a value flowing out of a phi, (pred, si) is the edge it arrives through
+	var judge func(v ssa.Value, at ssa.Instruction, pred *ssa.BasicBlock, si int, depth int) (string, string)
+	judge = func(v ssa.Value, at ssa.Instruction, pred *ssa.BasicBlock, si int, depth int) (string, string) {
+		v = an.StripConv(v)
 		if cl, ok := isCallToName(v, "path/filepath.Clean"); ok {
 			v = cl.Call.Args[0]
 		}
-		if v == p {
-			target := ssa.Instruction(ret)
-			x, _ := an.Cut(an.CutQuery{From: an.Entry(R), Target: func(i ssa.Instruction) bool { return i == target },
-				AcceptEdge: func(b *ssa.BasicBlock, i int, a *an.Atom) bool {
-					if a == nil || a.Op != "true" {
-						return false
+		if phi, ok := v.(*ssa.Phi); ok && depth < 3 {
+			for i, e := range phi.Edges {
+				pb := phi.Block().Preds[i]
+				k := 0
+				for j, sx := range pb.Succs {
+					if sx == phi.Block() {
+						k = j
 					}
-					call, ok := isCallToName(a.LV, "path/filepath.IsAbs")
-					return ok && call.Call.Args[0] == p
-				}})
-			if x != nil {
-				return "the resolver can return its argument unchanged although it is not absolute", c.Pos(ret)
+				}
+				if why, pos := judge(e, at, pb, k, depth+1); why != "" {
+					return why, pos
+				}
 			}
-			continue
+			return "", ""
+		}
+		if v == p {
+			if pred != nil {
+				if isAbsEdge(pred, si, an.EdgeAtom(pred, si)) {
+					return "", ""
+				}
+				target := pred.Instrs[len(pred.Instrs)-1]
+				if x, _ := an.Cut(an.CutQuery{From: an.Entry(R), Target: func(i ssa.Instruction) bool { return i == target }, AcceptEdge: isAbsEdge}); x != nil {
+					return "the resolver can return its argument unchanged although it is not absolute", c.Pos(at)
+				}
+				return "", ""
+			}
+			if x, _ := an.Cut(an.CutQuery{From: an.Entry(R), Target: func(i ssa.Instruction) bool { return i == at }, AcceptEdge: isAbsEdge}); x != nil {
+				return "the resolver can return its argument unchanged although it is not absolute", c.Pos(at)
+			}
+			return "", ""
 		}
 		join, ok := isCallToName(v, "path/filepath.Join")
 		if !ok {
-			return "a result of the resolver is neither its absolute argument nor filepath.Join(base, ...): " + an.Term(v), c.Pos(ret)
+			return "a result of the resolver is neither its absolute argument nor filepath.Join(base, ...): " + an.Term(v), c.Pos(at)
 		}
 		parts := varargValues(join.Call.Args[0])
 		if len(parts) == 0 {
@@ -343,6 +365,15 @@ func (c *Ctx) anchoredResolver(R *ssa.Function) (string, string) {
 		}
 		if why := anchored(an.StripConv(parts[0]), join, nil, 0, 0); why != "" {
 			return why, c.Pos(join)
+		}
+		return "", ""
+	}
+	for _, ret := range an.Returns(R) {
+		if len(ret.Results) == 0 {
+			continue
+		}
+		if why, pos := judge(an.Result(ret, 0), ret, nil, 0, 0); why != "" {
+			return why, pos
 		}
 	}
 	return "", ""
